@@ -425,7 +425,11 @@ func GenCase(p *Profile) *rapid.Generator[Case] {
 			if nc <= 0 {
 				nc = 1
 			}
-			c.Ops = append(c.Ops, Op{K: OpBulk, C: uni(t, nc, "bulkcoll"), N: 1300 + uni(t, 2700, "bulkn"), Flag: uni(t, 1000, "bulkseed")})
+			bulk := Op{K: OpBulk, C: uni(t, nc, "bulkcoll"), N: 1300 + uni(t, 2700, "bulkn"), Flag: uni(t, 1000, "bulkseed")}
+			if uni(t, 3, "bulkchain") == 0 {
+				bulk.At, bulk.N = 1, 260+uni(t, 900, "chainn") // tied priorities in key order: a list-shaped tree
+			}
+			c.Ops = append(c.Ops, bulk)
 			if !c.Cfg.Mem {
 				c.Ops = append(c.Ops, Op{K: OpFlush})
 			}
